@@ -22,3 +22,4 @@ INVARIANT InvNoOrphan
 INVARIANT InvC18strays
 CHECK_DEADLOCK FALSE
 INVARIANT InvResetMemoryLinked
+INVARIANT InvC18notReached
